@@ -42,7 +42,6 @@ func TestVerifC04(t *testing.T) {
 				cfg.BatchMaxTime = 50 * time.Millisecond
 			}
 		})
-		srv.s.config.Clustering.ServerID = srv.s.config.Clustering.ServerID // keep the name
 		me := srv.s.config.Clustering.ServerID
 		for k := 0; k < n; k++ {
 			id++
